@@ -697,6 +697,16 @@ func genCase(t *rapid.T) (*tcase, bool, []string) {
 		labels = append(labels, "process-zone/"+c.TZ)
 		nontrivial = true
 	}
+	// script files that begin with blank lines (LF or CR LF) and an indented first line: the file is the script, byte for
+	// byte, so the positions in what the binary reports are those of the file
+	if rapid.IntRange(0, 3).Draw(t, "leading-blank") == 0 {
+		pre := rapid.SampledFrom([]string{"\n\n", "\r\n\r\n\r\n", "\n   ", "  \t", "\n\n\n\n\t "}).Draw(t, "prefix")
+		for n, sc := range c.Scripts {
+			c.Scripts[n] = pre + sc
+		}
+		labels = append(labels, "script/leading-blank-lines")
+		nontrivial = true
+	}
 	if c.Mode == "workspace" && rapid.IntRange(0, 2).Draw(t, "namesakes") == 0 {
 		c.Namesakes = true
 		labels = append(labels, "workspace/namesakes-in-the-current-directory")
